@@ -35,7 +35,10 @@ LEVEL_TEXT.update({
 })
 LEVEL_TEXT.update({
     'C07': 'Complete per-character proofs (Kani, loop-free over every char) that the quoting decision and the lexer classify characters consistently, plus a bounded check (texts of <= 2 characters over 16 characters, literal expectations) that quoted()/Display for Quoted produce a form that reads back as the original text; the printers of state listings and the lexer as a whole are not decided.',
-    'C16': 'Unbounded deductive proof (Verus) on the real variable store: get_or_new (three scopes), unset and push_context preserve the representation invariant from every state and agree with the naive stack-of-maps scoping model (innermost definition visible, lower contexts untouched, only volatile definitions dropped, read-only never unset or assigned); an inductive invariant over all histories of these operations, which is what the property quantifies over. pop_context, iteration, the exported environment and the interpreter\'s use of scopes are not decided.',
+    'C16': 'Unbounded deductive proof (Verus) on the real variable store: get_or_new (three scopes), unset and push_context preserve the representation invariant from every state and agree with the naive stack-of-maps scoping model (innermost definition visible, lower contexts untouched, only volatile definitions dropped, read-only never unset or assigned); an inductive invariant over all histories of these operations, which is what the property quantifies over. the same for pop_context (locals vanish, lower definitions persist), for iteration by scope and (one direction) for the exported environment; the interpreter\'s use of scopes is not decided.',
+})
+LEVEL_TEXT.update({
+    'C14': 'Kernel only. Unbounded deductive proof (Verus) that the pipe buffer of the simulated system is a FIFO queue of bounded capacity: writes append (atomically when small, piecewise when larger than the room), reads remove from the front, nothing is lost, duplicated or reordered, for every payload size. The interleaving half of the property (wake-ups, select, read/write-all loops) is outside what function contracts decide and is not claimed.',
 })
 LEVEL_TEXT.update({
     'C20': 'Bounded check (Kani, concrete enumeration, one harness per argument vector) of the generic option parser against a reference parser written from XBD 12.2: the right level for a string-manipulating function that neither verifier can take symbolically; per-built-in equivalence is whole-system and not claimed.',
@@ -56,7 +59,7 @@ NOTE.update({
 })
 NOTE.update({
     'C07': 'Kernel only. Trusted: Kani/CBMC, std char::is_whitespace, the reference un-quoter of tools/gen_quote.py. Not covered: texts longer than 2 characters, the real lexer re-reading the form, printers of state listings.',
-    'C16': 'Trusted: Verus/Z3; Location placeholder; assumed contracts of std functions (mem::replace, Option::replace/filter, HashMap::get_mut, partition_point, rposition, drain) and structural derives. Not covered: pop_context_impl, iter, env_c_strings, ContextGuard, positional parameters, interpreter-level scoping.',
+    'C16': 'Trusted: Verus/Z3; Location placeholder; assumed contracts of std functions (mem::replace, Option::replace/filter, HashMap::get_mut, partition_point, rposition, drain) and structural derives. Not covered: completeness and formatting of env_c_strings, ContextGuard, positional parameters, interpreter-level scoping.',
 })
 NOTE.update({
     'C20': 'Generic parser only, bounded (argument vectors of length <= 2-3 over the 11 words, two option tables, one Mode). Trusted: Kani/CBMC, the reference parser of tools/gen_optparse.py. Not covered: 28 error-path vectors (out of CBMC reach), per-built-in interpretation, bespoke parsers.',
@@ -91,6 +94,13 @@ TECH.update({
 
 TECH.update({
     'C20': 'Kani harness-encoded contract (literal expectations from a reference parser) on the real crate, bounded',
+})
+
+NOTE.update({
+    'C14': 'Decides the object-level half of C14 only. Trusted: Verus/Z3, assumed contracts of VecDeque/Vec extend and friends, placeholder types for wakers. Not covered: OpenFileDescription, concurrency.rs, rw_all.rs, command substitution, here-documents, regular files.',
+})
+TECH.update({
+    'C14': 'contract-based deductive verification (Verus, Z3) of FileBody::poll_read / poll_write and the readiness predicates on FIFOs',
 })
 
 
